@@ -453,6 +453,71 @@ def _norm_index(ex, seq, idx, st, ctx, node, what):
     return z3.If(si < 0, si + n, si)
 
 
+def new_symlist(st, elem, prefix):
+    """Python list of symbolic length: parallel z3 arrays + a z3 Int length.  elem 'real' (one column 'v') or 'piece'
+    (interpolant objects: columns t0, t1, id)."""
+    cols = {"v": z3.Array(fresh_name(prefix + "_v"), z3.IntSort(), z3.RealSort())} if elem == "real" else \
+        {"t0": z3.Array(fresh_name(prefix + "_t0"), z3.IntSort(), z3.RealSort()), "t1": z3.Array(fresh_name(prefix + "_t1"), z3.IntSort(), z3.RealSort()),
+         "id": z3.Array(fresh_name(prefix + "_id"), z3.IntSort(), z3.IntSort())}
+    n = z3.Int(fresh_name(prefix + "_len"))
+    return st.new_obj("symlist", "symlist", fields=dict(len=n, cols=cols, elem=elem))
+
+
+def _symlist_elem_cols(o, x, st):
+    if o.fields["elem"] == "real":
+        return {"v": to_real(x)}
+    xf = st.obj(x).fields
+    return {"t0": to_real(xf["t0"]), "t1": to_real(xf["t1"]), "id": to_z3(xf["id"])}
+
+
+def _symlist_get(ex, v, idx, st, ctx, node):
+    o = st.obj(v)
+    n = o.fields["len"]
+    if isinstance(idx, int) and idx < 0:
+        j = n + idx
+    else:
+        j = to_z3(idx)
+    if not ctx.spec:
+        ex.prove(st, ctx, z3.And(j >= 0, j < n), "index-in-bounds", "index-in-bounds:list-load@L%s" % getattr(node, "lineno", "?"), getattr(node, "lineno", None))
+    if o.fields["elem"] == "real":
+        return z3.Select(o.fields["cols"]["v"], j)
+    c = o.fields["cols"]
+    return st.new_obj("CubicHermiteInterp", fields=dict(t0=z3.Select(c["t0"], j), t1=z3.Select(c["t1"], j), id=z3.Select(c["id"], j)))
+
+
+def _symlist_method(ex, v, name, args, st, ctx):
+    o = st.obj(v)
+    n = o.fields["len"]
+    cols = o.fields["cols"]
+    i = z3.Int(fresh_name("i"))
+    if name == "append":
+        new = _symlist_elem_cols(o, args[0], st)
+        o.fields["cols"] = {k: z3.Store(a, n, new[k]) for k, a in cols.items()}
+        o.fields["len"] = n + 1
+        return None
+    if name == "insert":
+        if not (isinstance(args[0], int) and args[0] == 0):
+            raise Havoc("insert at a position other than 0")
+        new = _symlist_elem_cols(o, args[1], st)
+        o.fields["cols"] = {k: z3.Lambda([i], z3.If(i == 0, new[k], z3.Select(a, i - 1))) for k, a in cols.items()}
+        o.fields["len"] = n + 1
+        return None
+    if name == "pop":
+        idx = args[0] if args else -1
+        j = n + idx if (isinstance(idx, int) and idx < 0) else to_z3(idx)
+        if not ctx.spec:
+            ex.prove(st, ctx, z3.And(j >= 0, j < n), "index-in-bounds", "index-in-bounds:list-pop")
+        elem = _symlist_get(ex, v, idx, st, Ctx_spec(ctx), None)
+        o.fields["cols"] = {k: z3.Lambda([i], z3.If(i < j, z3.Select(a, i), z3.Select(a, i + 1))) for k, a in cols.items()}
+        o.fields["len"] = n - 1
+        return elem
+    raise Havoc("list method %s on a symbolic-length list" % name)
+
+
+def Ctx_spec(ctx):
+    return ctx.child_spec()
+
+
 def _vec_index(items, idx):
     if isinstance(idx, ConcVec):            # boolean mask
         if len(idx) != len(items) or not all(isinstance(m, bool) for m in idx.items):
@@ -507,6 +572,8 @@ def subscript(ex, v, idx, st, ctx, node=None):
         if isinstance(idx, (int, slice)):
             return items[idx]
         raise Havoc("symbolic index into tuple")
+    if isinstance(v, Ref) and st.obj(v).kind == "symlist":
+        return _symlist_get(ex, v, idx, st, ctx, node)
     if isinstance(v, Ref):
         o = st.obj(v)
         if o.kind == "list":
@@ -644,6 +711,8 @@ def store(ex, base, idx, v, st, ctx, node=None):
 # methods on values
 # ----------------------------------------------------------------------------------------------
 def method(ex, v, name, args, kwargs, st, ctx):
+    if isinstance(v, Ref) and st.obj(v).kind == "symlist":
+        return _symlist_method(ex, v, name, args, st, ctx)
     if isinstance(v, Ref):
         o = st.obj(v)
         if o.kind == "list":
@@ -971,6 +1040,8 @@ TABLE["D.ar_numpy.max"] = _minmax(False)
 @reg("len")
 def _len(ex, st, ctx, args, kwargs):
     v = args[0]
+    if isinstance(v, Ref) and st.obj(v).kind == "symlist":
+        return st.obj(v).fields["len"]
     if isinstance(v, Ref):
         o = st.obj(v)
         if o.kind in ("list", "dict"):
@@ -1264,6 +1335,8 @@ def _stack(ex, st, ctx, args, kwargs):
     if hook:
         return hook(ex, st, ctx, args, kwargs)
     v = args[0]
+    if isinstance(v, Ref) and st.obj(v).kind == "symlist" and st.obj(v).fields["elem"] == "real":
+        return SeqVal(st.obj(v).fields["cols"]["v"], st.obj(v).fields["len"], "Real")       # numpy.stack of a list of scalars (A3)
     if isinstance(v, Ref) and st.obj(v).kind == "list" and len(st.obj(v).items) == 2 and all(isinstance(x, SeqVal) for x in st.obj(v).items) \
             and kwargs.get("axis", 0) == 0:
         a, b = st.obj(v).items          # numpy.concatenate of two 1-D arrays (A3)
